@@ -159,7 +159,11 @@ def evaluate(case, directory, differential=True):
             if lo != hi:
                 zig.append(times[lo])
             lo, hi = lo + 1, hi - 1
-        for order_name, seq in (('descending', times[::-1]), ('zigzag', zig)):
+        passes = [('descending', times[::-1])]
+        if case['order'] == sorted(case['order']):
+            # (the order of the rows in the file and the order of the questions are independent dimensions)
+            passes += [('zigzag', zig), ('other zones', times)]
+        for order_name, seq in passes:
             market.clear_caches()
             try:
                 src3 = load(rows, case['order'], adjust, directory)
@@ -167,10 +171,14 @@ def evaluate(case, directory, differential=True):
                 fails.append({'clause': 'C06.load_error', 'detail': {'error': repr(e)}, 'case': case})
                 break
             nload += 1
-            for t in seq:
+            for k3, t in enumerate(seq):
                 nq += 1
-                v3 = src3.get_bid(pd.Timestamp(t), 'EQ:AAA')
-                a3 = src3.get_ask(pd.Timestamp(t), 'EQ:AAA')
+                q3 = pd.Timestamp(t)
+                if order_name == 'other zones':
+                    # the same instant written in a zone east / west of UTC
+                    q3 = q3.tz_convert(('Europe/Berlin', 'America/New_York', 'Asia/Tokyo')[k3 % 3])
+                v3 = src3.get_bid(q3, 'EQ:AAA')
+                a3 = src3.get_ask(q3, 'EQ:AAA')
                 if not same(float(answers[t]), v3) or not same(float(answers[t]), a3):
                     fails.append({'clause': 'C06.depends_on_query_order', 'case': case,
                                   'detail': {'t': str(t), 'query_order': order_name, 'ascending_answer': float(answers[t]),
